@@ -228,6 +228,7 @@ struct nng_aio {
 	bool         a_expire_ok;  // Expire from sleep is ok
 	bool         a_expiring;   // Expiration in progress
 	bool         a_use_expire; // Use expire instead of timeout
+	bool         a_timeout_dflt; // Caller asked for the default timeout
 	bool         a_abort;      // Task was aborted
 	bool         a_init;       // Initialized this
 	bool         a_stopped;    // Debug - set when we finish stopped
